@@ -26,9 +26,10 @@ import (
 )
 
 type spPeerInfo struct {
-	Kind string `json:"kind"`
-	AS   uint32 `json:"as"`
-	Idx  int    `json:"idx"`
+	Kind    string `json:"kind"`
+	AS      uint32 `json:"as"`
+	Idx     int    `json:"idx"`
+	SendMax int    `json:"sendmax"`
 }
 
 type spRoute struct {
@@ -67,7 +68,7 @@ type spWorld struct {
 	b     *spBehaviour
 	peers map[string]*simPeer
 	pinfo map[string]spPeerInfo
-	views map[string]map[string]map[string]any // peer -> prefix -> attrs
+	views map[string]map[string]map[string]any // peer -> "prefix#id" -> attrs
 	byAddr map[string]string
 	byRid  map[string]string
 	gateMu sync.Mutex
@@ -219,16 +220,16 @@ func (w *spWorld) fold(name string) {
 		}
 		u := m.Msg.Body.(*bgp.BGPUpdate)
 		for _, wd := range u.WithdrawnRoutes {
-			delete(view, spPrefixName(wd.NLRI.String()))
+			delete(view, fmt.Sprintf("%s#%d", spPrefixName(wd.NLRI.String()), wd.ID))
 		}
 		if len(u.NLRI) > 0 {
 			pr := w.project(u.PathAttributes)
 			for _, n := range u.NLRI {
-				c := map[string]any{}
+				c := map[string]any{"id": int(n.ID), "x": spPrefixName(n.NLRI.String())}
 				for k, v := range pr {
 					c[k] = v
 				}
-				view[spPrefixName(n.NLRI.String())] = c
+				view[fmt.Sprintf("%s#%d", spPrefixName(n.NLRI.String()), n.ID)] = c
 			}
 		}
 	}
@@ -238,6 +239,7 @@ func (w *spWorld) observe() map[string]any {
 	obs := map[string]any{}
 	sess := map[string]string{}
 	views := map[string]any{}
+	mviews := map[string]any{}
 	adjin := map[string]any{}
 	ctr := map[string]any{}
 	for name, sp := range w.peers {
@@ -249,18 +251,33 @@ func (w *spWorld) observe() map[string]any {
 		}
 		w.fold(name)
 		v := map[string]any{}
+		mv := map[string]any{}
 		for x := range spPrefixes {
-			if r, ok := w.views[name][x]; ok {
-				v[x] = r
-			} else {
-				v[x] = map[string]any{"src": "none"}
-			}
+			v[x] = map[string]any{"src": "none"}
+			mv[x] = []any{}
 		}
-		for x, r := range w.views[name] {
+		w.gateMu.Lock()
+		keys := vpSortedKeys(w.views[name])
+		for _, k := range keys {
+			r := w.views[name][k]
+			x := r["x"].(string)
 			if _, ok := spPrefixes[x]; !ok {
-				v[x] = r
+				v[x] = r // unknown prefix: shows up as a mismatch
+				continue
+			}
+			mv[x] = append(mv[x].([]any), r)
+			if r["id"].(int) == 0 {
+				c := map[string]any{}
+				for kk, vv := range r {
+					if kk != "id" && kk != "x" {
+						c[kk] = vv
+					}
+				}
+				v[x] = c
 			}
 		}
+		w.gateMu.Unlock()
+		mviews[name] = mv
 		views[name] = v
 		// adj-in, white box
 		ai := map[string]any{}
@@ -300,6 +317,7 @@ func (w *spWorld) observe() map[string]any {
 	})
 	obs["sess"] = sess
 	obs["views"] = views
+	obs["mviews"] = mviews
 	obs["adjin"] = adjin
 	obs["ctr"] = ctr
 	obs["rib"] = rib
@@ -320,6 +338,12 @@ func (w *spWorld) addPeer(name string) {
 	if pi.Kind == "rs" {
 		p.RouteServer = &api.RouteServer{RouteServerClient: true}
 	}
+	if pi.SendMax > 0 {
+		p.AfiSafis = []*api.AfiSafi{{
+			Config:   &api.AfiSafiConfig{Family: &api.Family{Afi: api.Family_AFI_IP, Safi: api.Family_SAFI_UNICAST}, Enabled: true},
+			AddPaths: &api.AddPaths{Config: &api.AddPathsConfig{SendMax: uint32(pi.SendMax)}},
+		}}
+	}
 	vpMust(w.ss.s.AddPeer(context.Background(), &api.AddPeerRequest{Peer: p}))
 	vpMust(w.ss.s.mgmtOperation(func() error {
 		w.gateMu.Lock()
@@ -329,6 +353,22 @@ func (w *spWorld) addPeer(name string) {
 	}, false))
 	w.peers[name] = newSimPeer(w.ss, name, spAddr(pi.Idx), pi.AS, spRid(pi.Idx))
 	w.views[name] = map[string]map[string]any{}
+}
+
+func (w *spWorld) openFor(name string) *bgp.BGPMessage {
+	sp := w.peers[name]
+	caps := []bgp.ParameterCapabilityInterface{bgp.NewCapRouteRefresh(), bgp.NewCapFourOctetASNumber(sp.as), bgp.NewCapMultiProtocol(bgp.RF_IPv4_UC)}
+	if w.pinfo[name].SendMax > 0 {
+		caps = append(caps, bgp.NewCapAddPath([]*bgp.CapAddPathTuple{bgp.NewCapAddPathTuple(bgp.RF_IPv4_UC, bgp.BGP_ADD_PATH_RECEIVE)}))
+	}
+	return sp.openWith(0, caps)
+}
+
+func (w *spWorld) recvOptions(name string) *bgp.MarshallingOption {
+	if w.pinfo[name].SendMax > 0 {
+		return &bgp.MarshallingOption{AddPath: map[bgp.Family]bgp.BGPAddPathMode{bgp.RF_IPv4_UC: bgp.BGP_ADD_PATH_RECEIVE}}
+	}
+	return &bgp.MarshallingOption{}
 }
 
 // sessionUp brings neighbour name to Established (hold time 0: no keepalive traffic).
@@ -346,9 +386,9 @@ func (w *spWorld) sessionUp(name string) bool {
 	sp.take()
 	sp.connect()
 	synctest.Wait()
-	vpMust(sp.send(sp.defaultOpen(0, []bgp.Family{bgp.RF_IPv4_UC})))
+	vpMust(sp.send(w.openFor(name)))
 	synctest.Wait()
-	sp.setOptions(&bgp.MarshallingOption{}, &bgp.MarshallingOption{})
+	sp.setOptions(w.recvOptions(name), &bgp.MarshallingOption{})
 	vpMust(sp.send(bgp.NewBGPKeepAliveMessage()))
 	synctest.Wait()
 	return true
@@ -584,8 +624,8 @@ func (w *spWorld) freeSessionUp(name string) {
 	w.gateMu.Unlock()
 	sp.take()
 	sp.connect()
-	_ = sp.send(sp.defaultOpen(0, []bgp.Family{bgp.RF_IPv4_UC}))
-	sp.setOptions(&bgp.MarshallingOption{}, &bgp.MarshallingOption{})
+	_ = sp.send(w.openFor(name))
+	sp.setOptions(w.recvOptions(name), &bgp.MarshallingOption{})
 	_ = sp.send(bgp.NewBGPKeepAliveMessage())
 	w.waitUntil(func() bool {
 		st, _, _ := w.ss.peerState(sp.addr.String())
